@@ -868,6 +868,11 @@ def single_return_expr(f: FuncDef) -> Optional[ast.AST]:
     body = [s for s in body if not isinstance(s, (ast.Assert, ast.Pass))]
     if len(body) == 1 and isinstance(body[0], ast.Return) and body[0].value is not None:
         return body[0].value
+    # `tmp = <expr>; return tmp`  (tmp bound once, nothing else in the body)
+    if len(body) == 2 and isinstance(body[1], ast.Return) and isinstance(body[1].value, ast.Name) \
+            and isinstance(body[0], ast.Assign) and len(body[0].targets) == 1 \
+            and isinstance(body[0].targets[0], ast.Name) and body[0].targets[0].id == body[1].value.id:
+        return body[0].value
     return None
 
 
